@@ -344,15 +344,16 @@ pub(crate) async fn start_with_shutdown(
     let _ = cluster_handle.await;
 }
 
+type LogExecution = (Log<ClusterAction>, Option<ResultNotifier>);
+
 pub(crate) struct ClusterStorage {
     result_notifiers: HashMap<DbId, ResultNotifier>,
     notifier: tokio::sync::broadcast::Sender<u64>,
+    executor: UnboundedSender<LogExecution>,
     index: u64,
     term: u64,
     commit: u64,
-    db: ServerDb,
     cluster_log: ClusterLog,
-    db_pool: DbPool,
 }
 
 impl ClusterStorage {
@@ -360,15 +361,17 @@ impl ClusterStorage {
         let (index, term, commit) = cluster_log.cluster_log().await?;
         let logs = cluster_log.logs_unexecuted(commit).await?;
 
+        let notifier = tokio::sync::broadcast::channel(100).0;
+        let executor = Self::start_executor(db, cluster_log.clone(), db_pool, notifier.clone());
+
         let mut storage = Self {
             result_notifiers: HashMap::new(),
-            notifier: tokio::sync::broadcast::channel(100).0,
+            notifier,
+            executor,
             index,
             term,
             commit,
-            db,
             cluster_log,
-            db_pool,
         };
 
         for log in logs {
@@ -378,30 +381,45 @@ impl ClusterStorage {
         Ok(storage)
     }
 
+    // Committed logs are executed by a single task in the order they were
+    // committed (the order of the log): the effects of two actions must not
+    // depend on how the runtime schedules them.
+    fn start_executor(
+        db: ServerDb,
+        cluster_log: ClusterLog,
+        db_pool: DbPool,
+        notifier: tokio::sync::broadcast::Sender<u64>,
+    ) -> UnboundedSender<LogExecution> {
+        let (executor, mut logs) = tokio::sync::mpsc::unbounded_channel::<LogExecution>();
+
+        tokio::spawn(async move {
+            while let Some((log, result_notifier)) = logs.recv().await {
+                let log_id = log.db_id.unwrap_or_default();
+                #[cfg(agdb_verif)]
+                crate::verif::exec_event("start", log.index).await;
+                let result = log.data.exec(db.clone(), db_pool.clone()).await;
+                #[cfg(agdb_verif)]
+                crate::verif::exec_event("end", log.index).await;
+                let _ = notifier.send(log.index);
+                let _ = cluster_log.log_executed(log_id).await;
+
+                if let Some(rs) = result_notifier {
+                    let _ = rs.send(result.map(|r| (log.index, r)));
+                }
+            }
+        });
+
+        executor
+    }
+
     async fn execute_log(&mut self, log: Log<ClusterAction>) -> ServerResult<()> {
         let log_id = log.db_id.unwrap_or_default();
-        let db = self.db.clone();
-        let db_pool = self.db_pool.clone();
-        let cluster_log = self.cluster_log.clone();
-        let notifier = self.notifier.clone();
         let result_notifier = self.result_notifiers.remove(&log_id);
 
         #[cfg(agdb_verif)]
         crate::verif::commit_event(log.index);
 
-        tokio::spawn(async move {
-            #[cfg(agdb_verif)]
-            crate::verif::exec_event("start", log.index).await;
-            let result = log.data.exec(db.clone(), db_pool).await;
-            #[cfg(agdb_verif)]
-            crate::verif::exec_event("end", log.index).await;
-            let _ = notifier.send(log.index);
-            let _ = cluster_log.log_executed(log_id).await;
-
-            if let Some(rs) = result_notifier {
-                let _ = rs.send(result.map(|r| (log.index, r)));
-            }
-        });
+        self.executor.send((log, result_notifier))?;
 
         Ok(())
     }
